@@ -201,8 +201,9 @@ def finish(prop, tier, seed, mod, agg, known_what):
     ev = dict(property_id=prop, tier=tier, seed=seed, level=level, coverage=cov,
               assumptions=list(getattr(mod, 'ASSUMPTIONS', [])) + COMMON_ASSUMPTIONS,
               wall_s=round(agg['wall'], 2), violations=agg['n_violations'])
-    os.makedirs(os.path.join(HERE, 'evidence'), exist_ok=True)
-    with open(os.path.join(HERE, 'evidence', f'{prop}.json'), 'w') as f:
+    evdir = os.environ.get('VERIF_EVIDENCE_DIR') or os.path.join(HERE, 'evidence')
+    os.makedirs(evdir, exist_ok=True)
+    with open(os.path.join(evdir, f'{prop}.json'), 'w') as f:
         json.dump(ev, f, indent=1, default=str)
     print(f'[{prop} {tier}] scenarios={agg["scenarios"]} executions={agg["executions"]} choice_points={agg["points"]} '
           f'triggered={agg["triggered"]} distinct_nontrivial={len(agg["traces"])} verdicts={agg["verdicts"]} '
